@@ -184,6 +184,9 @@ def native_grid(prop, tier, seed):
         cases += [("fwsmap", {}), ("statsfit", {})]
     if prop == "C14":
         cases += [("bandpanic", {})]
+    if prop in ("C01", "C02", "C03"):
+        # homogeneity in the observations at extreme scales (2^-540 .. 2^500): intermediate squares leaving the float range
+        cases += [("scalecore", dict(n=6, p=2))] + ([("scalecore", dict(n=9, p=3)), ("scalecore", dict(n=4, p=1))] if tier == "thorough" else [])
     if prop == "C18":
         for have_y in (0, 1):
             for x in range(0, 4):
@@ -204,7 +207,7 @@ def native_grid(prop, tier, seed):
             part["obligations"] += 1
             part["states"] += 1
             part["traces_validated"] += 1
-            bad = [("crash-or-hang", d.get("log", "")[-300:])] if d.get("crash") else [f for f in d["out"]["facts"] if not f[1]]
+            bad = [("crash-or-hang", d.get("log", "")[-300:])] if d.get("crash") else [f for f in d["out"]["facts"] if not f[1] and (sc != "scalecore" or str(f[0]).startswith(prop))]
             if not d.get("crash") and any(str(n).startswith("VERIF-UNSUPPORTED") for n in d["out"].get("notes", [])):
                 part["tool_errors"].append(f"{sc}: {d['out']['notes'][0]}")
                 continue
